@@ -49,7 +49,15 @@ fn summarize(wasm: &[u8]) -> Result<Summary> {
     Ok(s)
 }
 
-fn is_new_body(b: &[String]) -> bool { b.first().map(|o| o.contains(&format!("value: {MARK}"))).unwrap_or(false) }
+fn is_new_body(b: &[String]) -> bool { b.iter().any(|o| o.contains(&format!("value: {MARK}"))) }
+/// the replacement body reads every argument local handed to the builder closure, in order: they must be the function's parameters
+fn args_ok(b: &[String], sig: &str) -> bool {
+    let p = sig.split("->").next().unwrap_or("[]");
+    let n = if p.trim() == "[]" { 0 } else { p.matches(',').count() + 1 };
+    let got: Vec<String> = b.iter().filter(|o| o.starts_with("LocalGet")).cloned().collect();
+    let want: Vec<String> = (0..n).map(|k| format!("LocalGet {{ local_index: {k} }}")).collect();
+    got == want
+}
 /// identity of a function that survives renumbering: imported -> (module, name, sig); local -> its body with calls resolved recursively one level
 fn ident(s: &Summary, f: u32) -> String {
     if f < s.n_imported_funcs {
@@ -99,7 +107,7 @@ fn check_import_replace(name: &str, wat: &str, failures: &mut Vec<JValue>, check
         let fid = m.imports.iter().filter_map(|i| if let walrus::ImportKind::Function(f) = i.kind { Some(f) } else { None }).nth(k as usize).unwrap();
         let victim = ident(&before, k);
         let r = std::panic::catch_unwind(std::panic::AssertUnwindSafe(|| -> Result<Vec<u8>> {
-            let got = m.replace_imported_func(fid, |(body, _args)| { body.i32_const(MARK).drop().unreachable(); })?;
+            let got = m.replace_imported_func(fid, |(body, args)| { for a in args.iter() { body.local_get(*a).drop(); } body.i32_const(MARK).drop().unreachable(); })?;
             if got != fid { return Err(anyhow!("returned id differs from the replaced function's id")); }
             Ok(m.emit_wasm())
         }));
@@ -134,6 +142,9 @@ fn check_import_replace(name: &str, wat: &str, failures: &mut Vec<JValue>, check
         if bb != ab { fail(format!("bodies of the other functions / their call targets differ: before {:?} after {:?}", bb, ab)); continue; }
         let n_new = after.bodies.iter().filter(|b| is_new_body(b)).count();
         if n_new != 1 { fail(format!("{n_new} functions carry the new body")); continue; }
+        if let Some((i, b)) = after.bodies.iter().enumerate().find(|(_, b)| is_new_body(b)) {
+            if !args_ok(b, &after.func_sigs[i + after.n_imported_funcs as usize]) { fail(format!("the argument locals handed to the builder closure are not the new function's parameters: body {:?}", b)); continue; }
+        }
         let _ = victim;
     }
     Ok(())
@@ -148,7 +159,7 @@ fn check_export_replace(name: &str, wat: &str, failures: &mut Vec<JValue>, check
         let mut m = walrus::Module::from_buffer(&wasm)?;
         let fid = m.exports.get_func(&ename)?;
         let r = std::panic::catch_unwind(std::panic::AssertUnwindSafe(|| -> Result<Vec<u8>> {
-            m.replace_exported_func(fid, |(body, _args)| { body.i32_const(MARK).drop().unreachable(); })?;
+            m.replace_exported_func(fid, |(body, args)| { for a in args.iter() { body.local_get(*a).drop(); } body.i32_const(MARK).drop().unreachable(); })?;
             Ok(m.emit_wasm())
         }));
         let mut fail = |what: String| failures.push(json!({"module": name, "export": ename, "op": "replace_exported_func", "what": what, "wat": wat}));
@@ -170,6 +181,9 @@ fn check_export_replace(name: &str, wat: &str, failures: &mut Vec<JValue>, check
         if before.exports.len() != after.exports.len() { bad = Some("number of exports changed".into()); }
         if let Some(b) = bad { fail(b); continue; }
         if retargeted != 1 { fail(format!("{retargeted} exports were retargeted, expected exactly 1")); continue; }
+        if let Some((i, b)) = after.bodies.iter().enumerate().find(|(_, b)| is_new_body(b)) {
+            if !args_ok(b, &after.func_sigs[i + after.n_imported_funcs as usize]) { fail(format!("the argument locals handed to the builder closure are not the new function's parameters: body {:?}", b)); continue; }
+        }
         // the original function is still there for internal users: table entries, start, callers unchanged
         let be: Vec<Vec<String>> = before.elems.iter().map(|v| v.iter().map(|f| shallow(&before, *f)).collect()).collect();
         let ae: Vec<Vec<String>> = after.elems.iter().map(|v| v.iter().map(|f| resolve_after(*f)).collect()).collect();
